@@ -141,6 +141,8 @@ def _vm_goal(case, out):
                 ops.append("Some (NOp (ASetAuto %s))" % ("true" if a == "1" else "false"))
             elif k == "W":
                 ops.append("Some (NOp ASaveIndex)")
+            elif k == "K":
+                ops.append("Some (NOp (ABadPush %s))" % a)
             else:
                 return None
         return ("vm_store_case (%s)%%N (%s)%%N (%s)%%N (%s)%%N\n  = ((%s)%%N, true)"
@@ -221,7 +223,7 @@ def _c07_vm_sample(d, tier, coq, build):
 CONFIG = {
     "properties_file": "Properties/C07.v",
     "proof_files": ["Proofs/GraphMem.v", "Proofs/GraphStore.v", "Proofs/IndexLTS.v", "Proofs/StoreLTS.v", "Proofs/IndexAllLTS.v", "Proofs/Links.v"],
-    "model_files": ["Generated/GC07.v", "Model/GraphMem.v", "Model/GraphStore.v", "Model/IndexLTS.v", "Model/StoreLTS.v", "Model/IndexAllLTS.v", "Model/Links.v"],
+    "model_files": ["Generated/GC07.v", "Model/GraphMem.v", "Model/GraphStore.v", "Model/IndexLTS.v", "Model/StoreLTS.v", "Model/IndexAllLTS.v", "Model/GraphMemSrc.v", "Model/Links.v"],
     "extract": "XC07.v",
     "ml_main": "c07_main.ml",
     "harness": "c07",
@@ -243,11 +245,11 @@ CONFIG = {
         "file store (Model/GraphStore.v fstore): Push = store step (may refuse/discard), graph.Index, restore step (may fail), outcomes chosen by the environment; names, ForceCAS, IgnoreNoName, DisableOverwrite only matter through those outcomes; the order index-before-restore is re-read from file.go (callseq calls_filePush)",
         "OCI initial state (audit F2): a layout not written by this Store is covered as PForeign = index.json replaced by one that lists only tagged/top-level manifests and accounts for every stored manifest (listed, tagged or child of a stored manifest), then reopened; blobs still enter through Push. Stored manifests that the foreign index does not reach at all are unlisted garbage of that layout and outside. The store theorems assume content addressing as a rank function decreasing along successors (no cycles)",
         "content.Successors (audit F4): Model/Links.v interprets the successor schema that the translator (kind linkschema) re-reads from the switch in content.Successors on every run (per media type the ordered document members: F, F*, F?); C07_links_exact is proved about that generated schema; compared with the real function on every run (stream links: documents carrying all of subject/config/layers/manifests/blobs); sha384/sha512-addressed nodes are generated in the chain stream only; parent descriptors whose size/media type differ from the child's push descriptor (twins inside a store) are not generated",
-        "not generated (audit F7): Untag by digest, Tag with a Resolve()d octet-stream descriptor, undecodable manifests (the merged Push deletes the blob again when graph.Index fails: not modelled)",
+        "not generated (audit F7): Untag by digest, Tag with a Resolve()d octet-stream descriptor, undecodable manifests are modelled and generated for the OCI store only (ABadPush: Push fails and leaves nothing; stream chain); on the memory and file stores such content stays stored and un-indexed - it references nothing, so Predecessors is unaffected - and is not generated",
         "callseq ties (audit F6) see the source ORDER of the watched calls only (saveIndex: Lock, deferred Unlock, Map, writeIndexFile; Store.GC: gcIndex, graph.Exists, Resolve, Tag, saveIndex, ReadDir; delete: Remove, Tag, saveIndex, storage.Delete; file Push: push, Index, restoreDuplicates); conditions such as `if s.AutoSaveIndex` are not re-read; a changed anchor hash is recorded, not fatal; the dynamic streams (burst, chain, foreign, ftitle) are the second line",
         "OCI GC that does not return (defect F1, property C09) or returns an error (index.json naming swept blobs after an earlier GC, defect F2, properties C08/C09) is not judged by C07; the harness avoids histories whose GC outcome depends on Go map order",
     ],
-    "level_text": "Coq theorems over all histories: the three invariants of graph.Memory hold after every sequence of Index/Remove/IndexAll/fresh-graph operations with content appearing and disappearing; under the invariant Predecessors(n) is exactly (NoDup, iff) the nodes in memory whose successors contain n, present or not; Remove returns exactly the nodes that lost their last predecessor, for every map iteration order; every permutation of a push list gives the same predecessor sets; the graph rebuilt by loadIndex/gcIndex holds exactly the nodes reachable from the roots and answers like the live graph when every stored manifest is a root; at the OCI store level (blobs, index roots, graph) Predecessors equals the stored referencing nodes after every Push/Tag/Delete/GC/reopen history and a reopen changes no answer (repaired gcIndex; refuted with a witness for the code before the repair); the same for every interleaving of the atomic steps of concurrent Push/Tag/Untag with exclusive Delete/GC/reopen (exact at quiescence, reopen-stable, and at every intermediate state no extra answer and nothing missing except a Push between its storage and index steps); for AutoSaveIndex=false histories whose reopens happen on a saved index; every schedule of the concurrent IndexAll equals the sequential one; whole histories terminate for sufficient fuel; over the full operation language with tag names the store refines the abstract specification spec_preds (answer computed from the stored set alone); for every interleaving of concurrent Push/Tag/Untag that runs to completion the index.json on disk equals the final resolver map when saveIndex snapshots under indexLock (as re-read from the source), hence reopen = live; refuted with a witness trace for the snapshot-outside-the-lock variant. The model is tied to internal/graph/memory.go by a differential run through a build-tagged hook and to the memory/OCI/file stores by end-to-end histories (push orders, concurrent pushes, Delete with and without AutoGC, Tag, GC, reopen via oci.New / NewFromFS / NewFromTar) judged by an independent oracle",
+    "level_text": "Coq theorems over all histories: the three invariants of graph.Memory hold after every sequence of Index/Remove/IndexAll/fresh-graph operations with content appearing and disappearing; under the invariant Predecessors(n) is exactly (NoDup, iff) the nodes in memory whose successors contain n, present or not; Remove returns exactly the nodes that lost their last predecessor, for every map iteration order; every permutation of a push list gives the same predecessor sets; the graph rebuilt by loadIndex/gcIndex holds exactly the nodes reachable from the roots and answers like the live graph when every stored manifest is a root; at the OCI store level (blobs, index roots, graph) Predecessors equals the stored referencing nodes after every Push/Tag/Delete/GC/reopen history and a reopen changes no answer (repaired gcIndex; refuted with a witness for the code before the repair); the same for every interleaving of the atomic steps of concurrent Push/Tag/Untag with exclusive Delete/GC/reopen (exact at quiescence, reopen-stable, and at every intermediate state no extra answer and nothing missing except a Push between its storage and index steps); for AutoSaveIndex=false histories whose reopens happen on a saved index; every schedule of the concurrent IndexAll equals the sequential one; whole histories terminate for sufficient fuel; the iteration order of Go's map in Remove is quantified over whole histories (C07_history_any_map_order: every output equal up to the order inside sets); the statement order of graph.Memory.index/Remove/Predecessors is re-read from memory.go (C07_graphmem_source_shape_src); over the full operation language with tag names the store refines the abstract specification spec_preds (answer computed from the stored set alone); for every interleaving of concurrent Push/Tag/Untag that runs to completion the index.json on disk equals the final resolver map when saveIndex snapshots under indexLock (as re-read from the source), hence reopen = live; refuted with a witness trace for the snapshot-outside-the-lock variant. The model is tied to internal/graph/memory.go by a differential run through a build-tagged hook and to the memory/OCI/file stores by end-to-end histories (push orders, concurrent pushes, Delete with and without AutoGC, Tag, GC, reopen via oci.New / NewFromFS / NewFromTar) judged by an independent oracle",
     "level_note": "content.Successors and its success predicate are parameters; the OCI store-level invariant (stored manifests = graph manifests = roots of index.json) is proved for the repaired gcIndex over all Push/Tag/Delete/GC/reopen histories and refuted for the pre-fix code; memory store only pushes (C07_push_delete_exact); file store: Push modelled as store/index/restore steps with environment-chosen outcomes (C07_file_history_exact_src); operations aborted half-way by I/O faults are out of scope (witness C07_store_delete_error_refuted); 'config, layers, blobs, manifests or subject' = C07_links_exact over the hand model of content.Successors, tied by the links stream; theorems ignore the fuel flag (an out-of-fuel GC/reopen is a no-op in the model) but C07_store_history_terminates shows sufficient fuel exists for whole histories; the concurrency LTSs (StoreLTS, IndexAllLTS, IndexLTS) are proved, not executed against the code: their tie is call-order translation + quiescent-state correspondence + the any-time oracle inside concurrent blocks; GC hangs/errors caused by F1/F2 are not judged here; undecodable manifests not modelled",
     "technique": "machine-checked proof in Coq (invariant over all operation histories, exactness, order independence, reachability characterisation of the IndexAll work-list) + model/implementation correspondence through a hook on graph.Memory + end-to-end oracle on the three stores",
     "explanation": "theorems over all histories about the executable model of graph.Memory (index, Remove with danglings, IndexAll, Predecessors); the extracted model and the real graph.Memory are run on the same random histories and every output compared; memory, OCI and file stores are driven through the public API in random push orders (sequential and concurrent) followed by Delete/Tag/GC/re-push/reopen histories, every node queried after every step and compared with the generator's inverse edge list restricted to stored parents, and with the model; a chain stream runs push tower -> Tag(root) -> GC -> reopen -> Delete(parents) -> reopen sequences (what each step leaves in index.json is all the next reopen sees); a dedicated burst stream pushes 16-32 distinct manifests sharing children from as many goroutines (optionally with concurrent Tag/Untag) into one OCI store and immediately reopens it via NewFromFS, NewFromTar and oci.New, judging every node against the blobs on disk; the index.json on disk (listed / named entries) is compared with the model's file component after every step; AutoSaveIndex off/on and SaveIndex are generated; while a concurrent block runs a reader checks every Predecessors answer (no extras/duplicates, earlier content and completed pushes present); sha512/sha384-addressed nodes go through NewFromTar (long names); every case runs under a watchdog (a wedge becomes an oracle failure after confirmation in a fresh process); a sample of the correspondence cases is re-evaluated inside Coq with vm_compute (post_model hook)",
